@@ -1,7 +1,195 @@
-/- C06 property theorems (under construction) -/
+/-
+  C06 — error messages always reach the user and cannot be inserted by accident.
+  Theorems about the model of `Messages.Integrate` (message.go) and of the pipeline.
+-/
+import Std.Data.String.ToNat
 import Carapace.Model.Shells
 import Carapace.Spec.FmtOracle
+import Carapace.Lemmas.Sort
+import Carapace.Props.C05
 
 namespace Carapace.Props.C06
+open Carapace Carapace.Model Carapace.Spec
+
+/-! ### names of the error entries -/
+
+theorem natToStr_inj {i j : Nat} (h : Str.natToStr i = Str.natToStr j) : i = j := by
+  unfold Str.natToStr at h
+  exact Nat.repr_inj.mp (String.toList_inj.mp h)
+
+theorem natToStr_ne_nil (i : Nat) : Str.natToStr i ≠ [] := by
+  unfold Str.natToStr
+  intro h
+  have : (Nat.repr i) = "" := String.toList_inj.mp (by simpa using h)
+  have hl : (Nat.repr i).length = 0 := by rw [this]; rfl
+  have := Nat.length_repr_pos (n := i)
+  omega
+
+/-- different counters give different inserted values -/
+theorem errName_inj (p : Str) {i j : Nat} (h : (errName p i).1 = (errName p j).1) : i = j := by
+  unfold errName at h
+  by_cases hi : i = 0 <;> by_cases hj : j = 0
+  · omega
+  · simp only [hi, hj, if_true, if_false] at h
+    have : ([] : Str) = Str.natToStr j := by
+      have := List.append_cancel_left (as := p ++ errS) (bs := []) (cs := Str.natToStr j) (by simpa using h)
+      exact this
+    exact absurd this.symm (natToStr_ne_nil j)
+  · simp only [hi, hj, if_true, if_false] at h
+    have : Str.natToStr i = [] := by
+      have := List.append_cancel_left (as := p ++ errS) (bs := Str.natToStr i) (cs := []) (by simpa using h)
+      exact this
+    exact absurd this (natToStr_ne_nil i)
+  · simp only [hi, hj, if_false] at h
+    exact natToStr_inj (List.append_cancel_left h)
+
+
+theorem containsValue_iff (vs : List RawValue) (s : Str) :
+    containsValue vs s = true ↔ s ∈ vs.map (·.value) := by
+  simp [containsValue, List.any_eq_true]
+
+/-- The numbering loop terminates within its fuel and returns a free name: candidate names for
+    different counters differ (`errName_inj`), so each taken name uses up one element of the
+    budget list `bs` (pigeonhole by erasing). -/
+theorem findFree_spec (vs : List RawValue) (p : Str) :
+    ∀ (fuel : Nat) (bs : List Str) (i : Nat),
+      (∀ j, i ≤ j → (errName p j).1 ∈ vs.map (·.value) → (errName p j).1 ∈ bs) →
+      bs.length < fuel →
+      ∃ k, i ≤ k ∧ findFree vs p fuel i = ((errName p k).1, (errName p k).2, k + 1) ∧
+        (errName p k).1 ∉ vs.map (·.value) := by
+  intro fuel
+  induction fuel with
+  | zero => intro bs i _ h; omega
+  | succ fuel ih =>
+    intro bs i hb hlen
+    by_cases hc : containsValue vs (errName p i).1 = true
+    · have hmem : (errName p i).1 ∈ bs := hb i (Nat.le_refl _) ((containsValue_iff _ _).mp hc)
+      have hlen' : (bs.erase (errName p i).1).length < fuel := by
+        rw [List.length_erase_of_mem hmem]
+        have : 0 < bs.length := List.length_pos_of_mem hmem
+        omega
+      have hb' : ∀ j, i + 1 ≤ j → (errName p j).1 ∈ vs.map (·.value) → (errName p j).1 ∈ bs.erase (errName p i).1 := by
+        intro j hj hjm
+        have hne : (errName p j).1 ≠ (errName p i).1 := by
+          intro heq
+          have := errName_inj p heq
+          omega
+        exact (List.mem_erase_of_ne hne).mpr (hb j (by omega) hjm)
+      obtain ⟨k, hk, hf, hfree⟩ := ih (bs.erase (errName p i).1) (i + 1) hb' hlen'
+      refine ⟨k, by omega, ?_, hfree⟩
+      simp only [findFree, hc, if_true]
+      exact hf
+    · refine ⟨i, Nat.le_refl _, ?_, ?_⟩
+      · simp only [findFree, hc, Bool.false_eq_true, if_false]
+      · intro hm
+        exact hc ((containsValue_iff _ _).mpr hm)
+
+/-- **C06 (entries).** The loop appends exactly one entry per message, in order, carrying the
+    message as description; their inserted values are pairwise distinct and distinct from all
+    values already present. -/
+theorem integrateLoop_spec (errStyle p : Str) :
+    ∀ (msgs : List Str) (vs : List RawValue) (i : Nat),
+      ∃ errs : List RawValue,
+        integrateLoop errStyle p msgs vs i = vs ++ errs ∧
+        errs.map (·.description) = msgs ∧
+        (∀ e ∈ errs, ∃ k, e.value = (errName p k).1 ∧ e.display = (errName p k).2 ∧ e.style = errStyle) ∧
+        (errs.map (·.value)).Nodup ∧
+        ∀ e ∈ errs, e.value ∉ vs.map (·.value) := by
+  intro msgs
+  induction msgs with
+  | nil => intro vs i; exact ⟨[], by simp [integrateLoop], rfl, by simp, List.nodup_nil, by simp⟩
+  | cons m ms ih =>
+    intro vs i
+    obtain ⟨k, _, hf, hfree⟩ := findFree_spec vs p (vs.length + 1) (vs.map (·.value)) i
+      (fun _ _ h => h) (by simp)
+    let e : RawValue := { value := (errName p k).1, display := (errName p k).2, description := m, style := errStyle }
+    obtain ⟨errs, hr, hd, hall, hnd, hnot⟩ := ih (vs ++ [e]) (k + 1)
+    refine ⟨e :: errs, ?_, ?_, ?_, ?_, ?_⟩
+    · simp only [integrateLoop, hf]
+      rw [hr]; simp [e]
+    · simp [hd, e]
+    · intro x hx
+      rcases List.mem_cons.mp hx with rfl | hx
+      · exact ⟨k, rfl, rfl, rfl⟩
+      · exact hall x hx
+    · simp only [List.map_cons, List.nodup_cons]
+      refine ⟨?_, hnd⟩
+      intro hmem
+      obtain ⟨x, hx, hxe⟩ := List.mem_map.mp hmem
+      have := hnot x hx
+      apply this
+      simp only [List.map_append, List.mem_append, List.map_cons, List.map_nil, List.mem_singleton]
+      exact Or.inr hxe
+    · intro x hx
+      rcases List.mem_cons.mp hx with rfl | hx
+      · exact hfree
+      · intro hm
+        have := hnot x hx
+        apply this
+        simp only [List.map_append, List.mem_append]
+        exact Or.inl hm
+
+theorem length_integrateLoop (errStyle p : Str) (msgs : List Str) (vs : List RawValue) (i : Nat) :
+    (integrateLoop errStyle p msgs vs i).length = vs.length + msgs.length := by
+  obtain ⟨errs, hr, hd, _⟩ := integrateLoop_spec errStyle p msgs vs i
+  rw [hr, List.length_append]
+  have : errs.length = msgs.length := by rw [← hd]; simp
+  omega
+
+/-- **C06 (at least two entries).** whenever messages are integrated as entries there are at
+    least two of them, so the shell cannot auto-insert an error text -/
+theorem C06_two_entries (errStyle dflt : Str) (msgs : List Str) (vs : List RawValue) (w : Str)
+    (hm : msgs ≠ []) : 2 ≤ (integrate errStyle dflt msgs vs w).length := by
+  have hm' : msgs.isEmpty = false := by
+    cases msgs with
+    | nil => exact absurd rfl hm
+    | cons _ _ => rfl
+  have hlen : 0 < msgs.length := by
+    cases msgs with
+    | nil => exact absurd rfl hm
+    | cons _ _ => simp
+  simp only [integrate, hm', Bool.false_eq_true, if_false, length_sortBy, integrateUnsorted]
+  have hl := length_integrateLoop errStyle (errPrefix w) msgs vs 0
+  split
+  · simp only [List.length_append, List.length_cons, List.length_nil]; omega
+  · omega
+
+/-- **C06 (no-space).** with messages present no trailing space is ever added -/
+theorem C06_nospace (sh : Str) (hsh : sh ≠ C05.exportS) (env : Env) (w : Str) (m : Meta)
+    (vs : List RawValue) (hm : m.messages ≠ []) (s : Str) :
+    SuffixMatcher.matchesStr (pipeline sh env w m vs).1.nospace s = true :=
+  C05.C05_messages_force sh hsh env w m vs hm s
+
+/-- nothing is integrated for the formats that have a message channel (list read from the source) -/
+theorem C06_channel_shells : Gen.messageShells = ["elvish".toList, "export".toList, "zsh".toList] := by decide
+
+/-- for the channel formats the candidates are left alone by the integration step: the emitted
+    candidates do not depend on the messages -/
+theorem C06_channel_untouched (sh : Str) (h : Gen.messageShells.elem sh = true) (env : Env) (w : Str) (m : Meta) (vs : List RawValue) :
+    (pipeline sh env w m vs).2 = (pipeline sh env w { m with messages := [] } vs).2 := by
+  unfold pipeline
+  simp only [h, if_true]
+
+/-- the zsh message field carries every message (sanitised) and then the usage -/
+theorem C06_zsh_messages (m : Meta) :
+    zshMessages m = (m.messages ++ (if m.usage.isEmpty then [] else [m.usage])).map (san Gen.zsh_message_formatMessage_msg) := rfl
+
+/-! ### the filler entry (finding `filler_typed_E`) -/
+
+/-- the error entries always extend the typed word -/
+theorem hasPrefix_append (a b : Str) : Str.hasPrefix (a ++ b) a = true := by
+  induction a with
+  | nil => simp [Str.hasPrefix]
+  | cons c a ih => simp [Str.hasPrefix, ih]
+
+/-- **the filler `_` is false of the pinned code** for a typed word ending in `E`:
+    with one message and no candidates, typed `E`, the filler's value `_` does not extend `E` -/
+theorem C06_filler_counterexample :
+    ((integrateUnsorted [] [] ["boom".toList] [] ['E']).map (·.value)) = ["ERR".toList, "_".toList]
+    ∧ Str.hasPrefix "_".toList ['E'] = false := by decide
+
+/-- partial: when the typed word does not end in `E`, `ER`, `ERR` the filler extends it -/
+theorem C06_filler_partial (w : Str) (h : errPrefix w = w) : Str.hasPrefix (errPrefix w ++ ['_']) w = true := by
+  rw [h]; exact hasPrefix_append w ['_']
 
 end Carapace.Props.C06
